@@ -77,6 +77,11 @@ def _all():
                      ([{"o": 1}, k1], [{"o": -1.01}, k2])):
             for g in ([t, u], [u, t], [t, [{"j": 1}, 5], u]):
                 yield {"fam": "pair", "a": [], "g": g}
+    # near-opposite pairs at small magnitudes (an absolute closeness test would fold them)
+    for t, u in (([{"o": 1}, 0.0012], [{"o": -1}, -0.001205]), ([{"o": 0.01234}, 1], [{"o": -0.01235}, 1]), ([{"o": 0.001}, 0.002], [{"o": -0.001002}, 0.002]),
+                 ([{"o": 1, "i": 0.0005}, 2], [{"o": -1, "i": -0.000502}, 2]), ([{"o": 1}, 0.00012], [{"o": -1}, 0.000121])):
+        for g in ([t, u], [u, t], [t, [{"j": 1}, 5], u]):
+            yield {"fam": "pair", "a": [], "g": g}
     # mixed
     gs = [[{"o": 1}, 1000000], [{"o": -1, "i": 0.5}, 0], [{"o": 1.234, "j": -12.34}, 1234], [{"i": 1, "o": 1}, 0.001234], [{"o": -999.9}, 5.678 * (1 + 2e-6)]]
     as_ = [[{"i": 1}, 1000], [{"i": -1}, 0], [{"j": 0.25, "i": 1}, 7], [{"j": -1}, 0.0001]]
